@@ -168,6 +168,7 @@ def run(eng, rep) -> None:
     rep.rule("R13.2", "decode handlers: canonical transfer sequence on the shared (by reference) bit cursor")
     rep.rule("R13.3", "encode handlers compose through the shared bit cursor (no private byte-padded buffers joined by Insert)")
     rep.rule("R13.4", "enum width = canonical packed size")
+    rep.rule("R13.7", "object pools of the run-time codec are keyed by everything the pooled object is built from")
     rep.rule("R13.5", "struct handlers iterate the reflected field vector in order")
     rep.rule("R13.6", "decoded JSON has the same value category in both codecs: signed fields signed integers, unsigned fields unsigned, sequences always arrays (types from the clang AST of the static wrappers and of Buffer::GetWord)")
     rep.assume("enum naming, JSON conversions other than the value category (R13.6), LoadBinarySchema's reconstruction of type chains (its body does not type-check against the stand-in reflection.h and is read at text level only)")
@@ -206,6 +207,7 @@ def run(eng, rep) -> None:
         else:
             rep.undecided("R13.4", TPL, h, "bitsize = %s" % e, "width formula not recognised")
     loader_rules(eng, rep, src)
+    pool_rules(eng, rep)
     # ---- R13.5 ---------------------------------------------------------------------
     for h in (() if typed else ("DecodeStruct", "EncodeStruct")):
         body = fb.get(h, "")
@@ -305,6 +307,58 @@ def _block(src: str, i: int) -> int:
                 return j + 1
         j += 1
     return len(src)
+
+
+def pool_rules(eng, rep) -> None:
+    """R13.7: a find-or-insert pool (`it = M.find(key); if (it == M.end()) M.emplace(key, make(args))`) hands out one object per key,
+    so the key has to be computed from every parameter the object is built from."""
+    try:
+        dc = DynCodec(eng)
+    except (DynUndecided, AnalysisError) as e:
+        rep.undecided("R13.7", TPL, "-", "typed reading", str(e)[:120])
+        return
+    from ..front_clang import walk as cwalk
+    n_pools = 0
+    for mname, m in sorted(dc.methods.items()):
+        parms = {p.get("name") for p in m.inner if p.kind == "ParmVarDecl"}
+        body = dc.body(mname)
+        locs = {v.get("name"): v for v in cwalk(body) if v.kind == "VarDecl"}
+
+        def pnames(x, depth=0):
+            out = set()
+            for y in cwalk(x):
+                if y.kind == "DeclRefExpr":
+                    nm = y.get("referencedDecl", {}).get("name")
+                    if nm in parms:
+                        out.add(nm)
+                    elif nm in locs and depth < 3 and locs[nm].inner:
+                        out |= pnames(locs[nm].inner[-1], depth + 1)
+            return out
+        finds = []
+        for c in cwalk(body):
+            mc = dc.member_call(c)
+            if mc and mc[0] == "find" and mc[2]:
+                obj = mc[1]
+                finds.append((obj.get("name") if obj is not None and obj.kind == "MemberExpr" else None, pnames(mc[2][0])))
+        for c in cwalk(body):
+            mc = dc.member_call(c)
+            if not (mc and mc[0] in ("emplace", "insert", "try_emplace", "insert_or_assign") and len(mc[2]) >= 2):
+                continue
+            obj = mc[1]
+            cont = obj.get("name") if obj is not None and obj.kind == "MemberExpr" else None
+            if cont is None or not any(f[0] == cont for f in finds):
+                continue
+            n_pools += 1
+            key_p, val_p = pnames(mc[2][0]), set()
+            for a in mc[2][1:]:
+                val_p |= pnames(a)
+            missing = sorted(val_p - key_p)
+            site = "%s: %s.find(key) / %s.%s(key, ...)" % (mname, cont, cont, mc[0])
+            if missing:
+                rep.violation("R13.7", TPL, mname, site, "the pooled object is built from %s but the key is computed from %s only: a later request that differs only in %s gets the object made for the first one (e.g. a second [T, n] / Optional[T] with another element type is decoded with the first one's element type)" % (sorted(val_p), sorted(key_p), missing))
+            else:
+                rep.ok("R13.7", TPL, mname, site, "key covers every parameter the object is built from (%s)" % sorted(val_p))
+    rep.ok("R13.7", TPL, "-", "find-or-insert pools in the run-time codec", "%d found" % n_pools)
 
 
 def loader_rules(eng, rep, src: str) -> None:
